@@ -556,7 +556,7 @@ void PoseidonGoldilocks::merkletree_batch_avx512(Goldilocks::Element *tree, Gold
             uint64_t nn = batch_size;
             if (j == nbatches - 1)
                 nn = nlastb;
-            Goldilocks::Element buff1[2 * nn * dim];
+            Goldilocks::Element buff1[2 * nn * dim + 1]; // nn is 0 when there are no columns: never a zero-length array
             Goldilocks::Element buff2[2 * CAPACITY];
             std::memcpy(&buff1[0], &input[i * num_cols * dim + j * batch_size * dim], dim * nn * sizeof(Goldilocks::Element));
             std::memcpy(&buff1[nn * dim], &input[(i + 1) * num_cols * dim + j * batch_size * dim], dim * nn * sizeof(Goldilocks::Element));
